@@ -7,12 +7,13 @@ outcome classes (the property's observable):
   signal     process died on a signal (SIGSEGV/SIGABRT/...; the tools route these to abort())  -> violated
   timeout    did not stop within the per-process budget                      -> violated
   badexit    non-small exit status, or a positive status without any diagnostic  -> violated
+  badoutput  a generated file contains a NUL byte although the input has none (bytes from outside a string) -> violated
 """
 import os, re, shutil, signal, subprocess, tempfile, time
 from concurrent.futures import ThreadPoolExecutor
 
 TOOLS = ["check-express", "exppp", "exp2cxx", "exp2python"]
-BAD = ("sanitizer", "signal", "timeout", "badexit")
+BAD = ("sanitizer", "signal", "timeout", "badexit", "badoutput")
 SMALL_MAX = 63
 SAN_ASAN, SAN_UBSAN = 99, 98
 
@@ -74,7 +75,7 @@ def gdb_signature(b, tool, path, args, cwd, timeout=60):
     return f"{sig.group(1) if sig else 'SIG?'}@{'<'.join(frames) if frames else '?'}"
 
 
-def run_tool(b, tool, data, workroot, timeout=20, args=(), keep=False, want_sig=True):
+def run_tool(b, tool, data, workroot, timeout=20, args=(), keep=False, want_sig=True, scan_output=True):
     """run one tool on `data` (bytes) in a fresh directory; returns a dict"""
     d = tempfile.mkdtemp(prefix="r-", dir=workroot)
     path = os.path.join(d, "in.exp")
@@ -128,12 +129,37 @@ def run_tool(b, tool, data, workroot, timeout=20, args=(), keep=False, want_sig=
             res.update(cls="badexit", sig=f"status {rc} without any diagnostic")
     else:
         res.update(cls="badexit", sig=f"status {rc}")
+    if res["cls"] in ("accept", "reject") and scan_output:
+        raw = b"".join(data.values()) if isinstance(data, dict) else data
+        if len(raw) <= 300000 and b"\0" not in raw:
+            hit = _nul_in_outputs(out_d)
+            if hit:
+                res.update(cls="badoutput", sig=f"NUL byte in generated *{os.path.splitext(hit)[1] or hit}")
     res["diag"] = _first_diag(err)
     if not keep:
         shutil.rmtree(d, ignore_errors=True)
     else:
         res["dir"] = d
     return res
+
+
+def _nul_in_outputs(out_d, limit=64 << 20):
+    """name of the first generated file that contains a NUL byte"""
+    seen = 0
+    for root, ds, fs in os.walk(out_d):
+        for f in sorted(fs):
+            p = os.path.join(root, f)
+            try:
+                with open(p, "rb") as fh:
+                    blob = fh.read()
+            except OSError:
+                continue
+            seen += len(blob)
+            if b"\0" in blob:
+                return f
+            if seen > limit:
+                return None
+    return None
 
 
 def _first_diag(err):
